@@ -594,13 +594,12 @@ func (c *Client) Do(m *Message, f func(Event)) error {
 	}
 	h := callbackWaitHandlerPool.Get().(*callbackWaitHandler) //nolint:forcetypeassert
 	h.setCallback(f)
-	defer func() {
-		callbackWaitHandlerPool.Put(h)
-	}()
 	if err := c.Start(m, h.handler); err != nil {
+		// Not reusing h: the failed transaction can still reference it.
 		return err
 	}
 	h.wait()
+	callbackWaitHandlerPool.Put(h)
 
 	return nil
 }
